@@ -10,3 +10,11 @@ package client
 //@   requires valid(caller)
 //@ func client.PollDeviceAccessTokenEndpoint
 //@   requires valid(caller)
+
+// ---- C14: the library's own assertion helper produces what op.VerifyJWTAssertion accepts:
+// iss == sub == clientID, the given audience, iat = now, exp = iat + expiration.
+//@ func client.SignedJWTProfileAssertion
+//@   ensures claims: callarg("crypto.Sign", 0, "*oidc.JWTTokenRequest") != nil
+//@        && callarg("crypto.Sign", 0, "*oidc.JWTTokenRequest").Issuer == clientID
+//@        && callarg("crypto.Sign", 0, "*oidc.JWTTokenRequest").Subject == clientID
+//@        && callarg("crypto.Sign", 0, "*oidc.JWTTokenRequest").Audience == audience
